@@ -1263,14 +1263,52 @@ def r_replan(F, cfg):
             if drop_incl is None:
                 continue
             decided = True
+            how = "drain"
             if drop_incl != inclusive:
                 R.violation("replan:prefix", b.where(t),
                             "%s: the cached length is the product of the chain %s position i, but the radixes dropped are 0..%si: the spliced plan's length is off by a factor radix[i]"
                             % (b.name, "up to and including" if inclusive else "before", "=" if drop_incl else ""))
             else:
                 R.ok({"dropped": "0..%si" % ("=" if drop_incl else ""), "matches_record": True}, nontrivial=True)
+    # other ways of keeping only the tail of the chain: split_off(k), skip(k), [k..]  -- the kept part starts at k,
+    # so the dropped prefix is 0..k: k = i drops 0..i (exclusive), k = i+1 drops 0..=i
+    def _is_idx2(e):
+        e2 = e
+        while e2[0] == "cast":
+            e2 = e2[3]
+        return e2[0] == "field" and any(x == ("dc", variant) for x in e2[2]) and e2[2][-1] == ("f", 1)
+
+    def _from(e):
+        if _is_idx2(e):
+            return False
+        if e[0] == "bin" and e[1].startswith("Add") and ((_is_idx2(e[2]) and e[3][:2] == ("const", 1)) or (_is_idx2(e[3]) and e[2][:2] == ("const", 1))):
+            return True
+        return None
+    for bi, t in b.calls():
+        c = F.callee_of(t)
+        if not c:
+            continue
+        p = c["p"]
+        drop_incl = None
+        if p.endswith("::split_off") and len(t["args"]) == 2:
+            drop_incl = _from(b.expr(t["args"][1]))
+        elif p.endswith("Iterator::skip") and len(t["args"]) == 2:
+            drop_incl = _from(b.expr(t["args"][1]))
+        elif (p.endswith("Index::index") or p.endswith("IndexMut::index_mut")) and len(t["args"]) == 2:
+            rg = b.expr(t["args"][1])
+            if rg[0] == "agg" and rg[1].startswith("std::ops::RangeFrom") and len(rg[2]) == 1:
+                drop_incl = _from(rg[2][0])
+        if drop_incl is None:
+            continue
+        decided = True
+        if drop_incl != inclusive:
+            R.violation("replan:prefix", b.where(t),
+                        "%s: the cached length is the product of the chain %s position i, but the part of the chain kept starts at i%s: the spliced plan's length is off by a factor radix[i]"
+                        % (b.name, "up to and including" if inclusive else "before", "+1" if drop_incl else ""))
+        else:
+            R.ok({"kept_from": "i%s" % ("+1" if drop_incl else ""), "matches_record": True}, nontrivial=True)
     if not decided:
-        R.undecided.append({"function": b.name, "status": "NOT DECIDED: the way the chain prefix is dropped is not a recognised idiom (drain(0..=i), drain(..=i), drain(0..i+1))"})
+        R.undecided.append({"function": b.name, "status": "NOT DECIDED: the way the chain prefix is dropped is not a recognised idiom (drain(0..=i), drain(..=i), drain(0..i+1), split_off(i+1), skip(i+1), [i+1..])"})
         R.instances += 1
     # 3. the new base is the recorded length
     for bi, si, n in b.iter_nodes():
